@@ -404,7 +404,7 @@ def check_sparse(c, st):
                           max(err(gp, refp), err(gr, refr)), TOL_EX, dict(st, b1=b1, b2=b2, skipcommon=skip))
                     c.part.add("sparse_calls", 1)
     # weighted sum of body Jacobians at one point (sparse or dense according to the model option)
-    if nb >= 3:
+    if nb >= 2:
         bodies = np.array([nb - 1, 1, 0, nb - 2][: min(4, nb)], np.int32)
         w = np.array([0.6, -1.0, 0.25, 0.4][: len(bodies)])
         pt = dj[nb - 1][0]
